@@ -1191,3 +1191,73 @@ Proof.
       simpl in H. destruct (lock s) as [[o [|n]]|]; try discriminate. destruct (tid_eqb o TD); try discriminate.
       inversion H; subst. unfold dbound. simpl. rewrite Ec. simpl. lia.
 Qed.
+
+(* ------------------------------------------------------------------ "exited" is stable *)
+Definition exited_at (e : emid) (s : state) : Prop := exists m, get_em s e = Some m /\ em_exited m = true.
+
+Lemma nth_upd_nth_other {A} (f : A -> A) : forall l n n', n <> n' -> nth_error (upd_nth n f l) n' = nth_error l n'.
+Proof.
+  induction l as [|a l IH]; intros [|n] [|n'] H; simpl; auto; try congruence.
+Qed.
+
+Lemma exited_upd e e' f s : exited_at e s ->
+  (forall m, em_exited m = true -> em_exited (f m) = true) -> exited_at e (upd_em e' f s).
+Proof.
+  intros [m [Hm He]] Hf. unfold exited_at, get_em, upd_em in *. simpl.
+  destruct (Nat.eq_dec e' e) as [->|Hne].
+  - exists (f m). split; [apply nth_upd_nth; exact Hm | apply Hf; exact He].
+  - exists m. split; [rewrite nth_upd_nth_other by exact Hne; exact Hm | exact He].
+Qed.
+
+Lemma exited_app e x s : exited_at e s -> exited_at e (set_ems (ems s ++ [x]) s).
+Proof.
+  intros [m [Hm He]]. exists m. split; auto. unfold get_em in *. simpl. rewrite nth_error_app1; auto.
+  apply nth_error_Some. congruence.
+Qed.
+
+Lemma exited_frame e s s1 : ems s1 = ems s -> exited_at e s -> exited_at e s1.
+Proof. unfold exited_at, get_em. intros ->. auto. Qed.
+
+Lemma exited_upd_unstarted e e' m' f s : exited_at e s -> get_em s e' = Some m' -> em_started m' = false ->
+  exited_at e (upd_em e' f s).
+Proof.
+  intros [m [Hm He]] Hm' Hs'. destruct (Nat.eq_dec e' e) as [->|Hne].
+  - exfalso. rewrite Hm in Hm'. inversion Hm'; subst. unfold em_started, em_exited in *. destruct (epcs m'); discriminate.
+  - exists m. split; auto. unfold get_em, upd_em in *. simpl. rewrite nth_upd_nth_other; auto.
+Qed.
+
+Lemma exited_exec e s t i k inp s' : exited_at e s -> exec s t i k inp = Some s' -> exited_at e s'.
+Proof.
+  intros Hx H.
+  destruct i; crush_exec H; (eapply exited_frame; [apply ems_set_cont|]); cbn;
+    try exact Hx;
+    try (eapply exited_frame; [|exact Hx]; reflexivity).
+  - eapply exited_frame; [|apply exited_app; exact Hx]. reflexivity.
+  - eapply exited_frame; [|apply exited_app; exact Hx]. reflexivity.
+  - eapply exited_frame; [|eapply exited_upd_unstarted; eauto]. reflexivity.
+  - eapply exited_frame; [|apply (exited_upd e e0 (fun m : em => {| ew := ew m; epcs := epcs m; estop := true |}) s Hx)]; [reflexivity|].
+    intros m Hm. exact Hm.
+  - eapply exited_frame; [|eapply exited_upd_unstarted; eauto]. reflexivity.
+Qed.
+
+Lemma exited_em_step e s l s' : exited_at e s -> em_label l = true -> step s l = Some s' -> exited_at e s'.
+Proof.
+  intros [m [Hm He]] Hl H.
+  assert (Hpc : epcs m = EExited) by (unfold em_exited in He; destruct (epcs m); try discriminate; reflexivity).
+  destruct l; try discriminate; simpl in H;
+    destruct (get_em s e0) as [m0|] eqn:E0; try discriminate;
+    destruct (epcs m0) eqn:Ep; try discriminate;
+    repeat match type of H with context [if ?x then _ else _] => destruct x end; try discriminate;
+    inversion H; subst; clear H;
+    (destruct (Nat.eq_dec e0 e) as [->|Hne]; [rewrite Hm in E0; inversion E0; subst; congruence|]);
+    exists m; (split; [|exact He]); unfold get_em, set_epc, upd_em in *; cbn; rewrite nth_upd_nth_other; auto.
+Qed.
+
+(* once an emitter thread has exited it stays exited, in every continuation of the run *)
+Theorem exited_stable e s l s' : exited_at e s -> step s l = Some s' -> exited_at e s'.
+Proof.
+  intros Hx H. refine (step_P (exited_at e) _ _ _ s l s' Hx H).
+  - intros s0 t i k inp s1 H0 _ H1. eapply exited_exec; eauto.
+  - intros s0 n c H0 _. eapply exited_frame; [|exact H0]. reflexivity.
+  - intros s0 l0 s1 H0 Hl H1. eapply exited_em_step; eauto.
+Qed.
